@@ -13,6 +13,9 @@ import (
 )
 
 type solver struct {
+	timeoutMs int
+	script  func() string // current path's script, to restore state after a restart
+	restarts int
 	kind    string
 	cmd     *exec.Cmd
 	in      *bufio.Writer
@@ -54,7 +57,7 @@ func newSolver(kind string, timeoutMs int) (*solver, error) {
 	if err := cmd.Start(); err != nil {
 		return nil, err
 	}
-	s := &solver{kind: kind, cmd: cmd, in: bufio.NewWriterSize(in, 1<<16), inRaw: in, out: bufio.NewReaderSize(out, 1<<16)}
+	s := &solver{kind: kind, timeoutMs: timeoutMs, cmd: cmd, in: bufio.NewWriterSize(in, 1<<16), inRaw: in, out: bufio.NewReaderSize(out, 1<<16)}
 	s.send("(set-option :produce-models true)")
 	if strings.HasPrefix(kind, "cvc5") {
 		s.send("(set-logic ALL)")
@@ -107,9 +110,24 @@ func (s *solver) checkSat(assumption string) string {
 	s.in.Flush()
 	res := "error"
 	sawErr := false
+	// hard timeout: the solver's own soft timeout is not always honoured.
+	timedOut := false
+	timer := time.AfterFunc(time.Duration(s.timeoutMs)*time.Millisecond*3/2+2*time.Second, func() {
+		timedOut = true
+		s.cmd.Process.Kill()
+	})
+	defer timer.Stop()
 	for {
 		line, err := s.readLine()
 		if err != nil {
+			if timedOut {
+				timer.Stop()
+				if s.restart() {
+					s.queries++
+					s.dur += time.Since(t0)
+					return "unknown"
+				}
+			}
 			s.errs = append(s.errs, "solver died: "+err.Error())
 			s.dead = true
 			return "error"
@@ -187,4 +205,21 @@ func (s *solver) getValue(term string) (string, bool) {
 		txt = txt[i+1:]
 	}
 	return txt, true
+}
+
+// restart replaces a killed solver process by a fresh one and replays the
+// current path's script into it.
+func (s *solver) restart() bool {
+	s.cmd.Wait()
+	n, err := newSolver(s.kind, s.timeoutMs)
+	if err != nil {
+		return false
+	}
+	s.cmd, s.in, s.inRaw, s.out = n.cmd, n.in, n.inRaw, n.out
+	s.restarts++
+	s.send("(push 1)")
+	if s.script != nil {
+		s.in.WriteString(s.script())
+	}
+	return true
 }
